@@ -46,12 +46,12 @@ def run(tier: str) -> int:
     ck = core.Check("C40", tier)
     k = 2
     if tier == "quick":
-        consts = dict(NVals=k, MaxLen=2, Terms={"C", "E", "U"}, MaxSubs=2, Disposes=True, Faults=True, Dsp2="few", Canon=True)
+        consts = dict(NVals=k, MaxLen=2, Terms={"C", "E", "U"}, MaxSubs=2, Disposes=True, Faults=True, Dsp2="few", Canon=True, SinkRaises=True)
         lines = export(ck, [("exhaustive", consts, g, None, None) for g in QUICK_GROUPS])["exhaustive"]
     else:
         # two subscriptions with every pair of dispose points on the canonical timelines; every timeline over two
         # tokens with one subscription
-        consts = dict(NVals=k, MaxLen=3, Terms={"C", "E", "U"}, MaxSubs=2, Disposes=True, Faults=True, Dsp2="all", Canon=True)
+        consts = dict(NVals=k, MaxLen=3, Terms={"C", "E", "U"}, MaxSubs=2, Disposes=True, Faults=True, Dsp2="all", Canon=True, SinkRaises=True)
         one_sub = dict(consts, MaxSubs=1, Canon=False)
         # longer timelines, three value tokens: sampled behaviours.  A simulated behaviour shows ONE resolution of the
         # model's only nondeterminism (a failed factory's error racing a dispose at the subscription instant):
